@@ -65,7 +65,9 @@ RULE = (
     "destination} (thorough: x older .old present, x write_deprecated for the direct API); all x {regular file, relative symlink, "
     "absolute symlink (thorough)}; crash-free session, then every crash point of every save of the session (before each mutating "
     "FS operation; inside each write at 0 / every line boundary / middle of last line / all-but-one), each on a fresh copy of the "
-    "pre-state with a fresh instance that performs the earlier saves for real. evaluations = generation pairs + executed crash "
+    "pre-state with a fresh instance that performs the earlier saves for real; a crash inside save j depends on c0..cj only and "
+    "every session prefix is a work item of its own, so each (prefix, crash point) is executed once: by the item whose last save "
+    "it is. evaluations = generation pairs + executed crash "
     "points + crash-free saves. distinct_nontrivial = distinct (generator, unchanged|changed, previous bytes, new bytes) of "
     "part A and distinct (save function, destination kind, older .old, loaded, first|later save, crash operation, surviving "
     "pattern of dest, surviving pattern of .old) of part B."
